@@ -3,17 +3,41 @@
    token list the JMC tokenizer hands to `variable_operation` for them.  Trusted, not verified:
    `render` prints an expression with the parentheses standard precedence needs (the harness
    cross-checks it against Python's own grammar on every generated case). *)
-From Coq Require Import ZArith String List Bool.
+From Coq Require Import ZArith String Ascii List Bool.
 From JMCV Require Import Base.Int32 Base.Dec MC.Syntax Model.Names Model.Expr.
 Import ListNotations.
 Open Scope Z_scope.
 
-(* a source-level score operand: `$name` or `objective:selector` *)
+(* a source-level score operand: `$name` or `objective:selector`.  `sel` is the selector AS WRITTEN
+   in the source (`@e[tag=x, limit=1]`, possibly with blanks, tabs and line breaks in the bracket):
+   the score holder JMC emits — and compares when it asks "does the target occur in the expression" —
+   is the CLEANED text, for the target (merge_obj_selector: clean_up_paren_token) and for every
+   operand (tokens_to_tokens: merge_tokens, which cleans the bracket) alike. *)
 Inductive svar := SDollar (name : string) | SObjSel (obj sel : string).
+
+(* clean_up_paren_token (src/jmc/compile/utils.py) on a selector bracket, for the spellings the harness
+   generates: the bracket is re-tokenised and the token strings are concatenated, so blanks, tabs and
+   line breaks OUTSIDE double-quoted strings disappear; a double-quoted string is printed back
+   verbatim.  Restriction (outside this model): single-quoted strings, escapes or a quote character
+   inside a string (clean_up re-quotes them with repr), comments and back-ticks inside the bracket.  A blank between
+   the selector and its bracket (`@e [tag=x]`) is dropped the same way (the tokens are merged). *)
+Definition is_blank (c : ascii) : bool :=
+  (Ascii.eqb c " " || Ascii.eqb c "009" || Ascii.eqb c "010")%char.
+Definition is_dquote (c : ascii) : bool := Ascii.eqb c """"%char.
+Fixpoint clean_from (in_string : bool) (s : string) : string :=
+  match s with
+  | EmptyString => EmptyString
+  | String c r =>
+      let in_string' := if is_dquote c then negb in_string else in_string in
+      if negb in_string && is_blank c then clean_from in_string' r
+      else String c (clean_from in_string' r)
+  end.
+Definition clean_sel (s : string) : string := clean_from false s.
+
 Definition score_of (nm : names) (v : svar) : score :=
   match v with
   | SDollar n => (n, var_name nm)          (* n includes the `$` *)
-  | SObjSel o s => (s, o)
+  | SObjSel o s => (clean_sel s, o)        (* (holder, objective) *)
   end.
 
 Inductive binop := BAdd | BSub | BMul | BDiv | BMod | BPow.
@@ -47,6 +71,22 @@ Fixpoint eval (nm : names) (rdv : score -> Z) (e : expr) : option Z :=
       | _, _ => None
       end
   end.
+
+(* ---- re-spelling: the same expression with its variables written differently *)
+Fixpoint respell (f : svar -> svar) (e : expr) : expr :=
+  match e with
+  | EVar v => EVar (f v)
+  | EConst z => EConst z
+  | ENeg e1 => ENeg (respell f e1)
+  | EPar e1 => EPar (respell f e1)
+  | EBin o l r => EBin o (respell f l) (respell f r)
+  end.
+(* f changes the spelling only: every variable still denotes the same score *)
+Definition same_scores (nm : names) (f : svar -> svar) : Prop :=
+  forall v, score_of nm (f v) = score_of nm v.
+(* e.g. writing every selector compactly *)
+Definition canon_svar (v : svar) : svar :=
+  match v with SObjSel o s => SObjSel o (clean_sel s) | SDollar _ => v end.
 
 (* the six assignment forms: PEmpty is `:=`, the others `:+= :-= :*= :/= :%=` *)
 Definition form_sem (form : opc) (old v : Z) : option Z :=
@@ -102,7 +142,8 @@ Fixpoint render (e : expr) : list tok :=
   | EBin o l r => ctx (need_l o) l (render l) ++ [KOp (opc_of o)] ++ ctx (need_r o) r (render r)
   end.
 
-(* source text of a token list (single spaces), used to cross-check the harness's renderer *)
+(* source text of a token list (single spaces), used to cross-check the harness's renderer;
+   a selector is printed as it was WRITTEN (raw), not cleaned *)
 Definition show_svar (v : svar) : string :=
   match v with SDollar n => n | SObjSel o s => o ++ ":" ++ s end.
 Definition show_opc (o : opc) : string :=
